@@ -164,6 +164,9 @@ def parseRead (l : LocusV) (r : ReadV) : List Ev × List (Int × String) :=
   let w := walk l r
   (mergeMnp l w.evs w.dump, w.phase)
 
+/-- reference bases consumed by one CIGAR operation, as the walk sees it -/
+def consumes (op size : Nat) : Nat := if op == 2 || Const.PARSE_MATCH_OPS.contains op then size else 0
+
 /-- reference span end of a CIGAR as the walk sees it -/
 def refLen (cigar : List (Nat × Nat)) : Nat :=
   (cigar.map fun c => if c.1 == 2 || Const.PARSE_MATCH_OPS.contains c.1 then c.2 else 0).sum
